@@ -6,6 +6,7 @@
                coefficient-wise inside the deterministic envelope (Model/Gadget.v gadget_env: derived there), and the two
                runs from different scratch contents agree.  Record layout: harness/src/ks_common.rs, bin/c03.rs. *)
 From PV Require Import Base.MachineInt Model.Znx Model.Limbs Model.Flat Model.Ring Model.Poly Model.DftAbs Model.Gadget Model.GadgetOracle.
+From PV Require Model.C04Run.
 Open Scope Z_scope.
 
 Definition in_cols (ps : list Z) (flat : list Z) : cols_t := cols_of_flat (h_n ps) (S (h_in_rank ps)) (h_in_size ps) flat.
@@ -233,5 +234,14 @@ Definition oracle_c03 (code : Z) (ps : list Z) (vs outs : list (list Z)) : Z :=
   | 3042 => oracle_sample_extract ps vs
   | 3050 => oracle_shapes ps vs
   | 3090 => oracle_keyrows ps vs
+  (* GGSW obtained from a GGLWE / by row expansion / by GGSW key-switch / automorphism with the tensor key of the public generator:
+     EVERY cell (row, column) against m2 (resp. s_col (x) m2, sigma_g m2): the statement and envelope of Model/C04Run.v *)
+  | 3061 => C04Run.oracle_cells_derived 4021 ps vs
+  | 3062 => C04Run.oracle_cells_derived 4022 ps vs
+  | 3063 => C04Run.oracle_cells_derived 4030 ps vs
+  | 3064 => C04Run.oracle_cells_derived 4031 ps vs
+  | 3065 => C04Run.oracle_cells_derived 4032 ps vs
+  | 3066 => C04Run.oracle_cells_derived 4033 ps vs
+  | 3091 => tensor_rows_ok ps vs
   | _ => 2
   end.
